@@ -22,6 +22,8 @@ structure Det (I : FunI F ℝ) (g : ℝ → ℝ) (J : F → PList ℝ → Prop) 
   (`function.f(parameters)` without a `setValue`) gives `g x` -/
   stored : ∀ fn pl x fn' pl' v, J fn pl → eval0 I fn pl x = .ok (fn', pl', v) → value0 pl' = some x
   direct : ∀ fn pl x fn' v, J fn pl → value0 pl = some x → I.f fn pl = .ok (fn', v) → v = g x ∧ J fn' pl
+  /-- a `setValue` without evaluation keeps `J`, and the list then holds the value -/
+  setJ : ∀ fn pl x pl', J fn pl → setValueAt pl 0 x = .ok pl' → J fn pl' ∧ value0 pl' = some x
 
 /-- a recorded point: the value is the function at the abscissa -/
 def BPt.Ok (g : ℝ → ℝ) (p : BPt ℝ) : Prop := p.f = g p.x
